@@ -156,6 +156,9 @@ Next ==
   \/ Solve
 
 Spec == Init /\ [][Next]_vars
+\* C06 (liveness): roadmap construction always returns
+FairSpec == Spec /\ WF_vars(ConstructEnd) /\ WF_vars(\E q \in Region : SampleMilestone(q))
+Terminates == []<>(pc = "idle")
 
 (***************************************************************************)
 (* Properties                                                              *)
